@@ -4,6 +4,12 @@
 import json, subprocess
 
 BUILT = {
+ "C08": ("exploration", "exact read-back of stored values at four stages (hot, flushed + reloaded through a 16-page cache, new process, crash + recovery) against the model; acceptance predicted by the model",
+         "Held on the values explored: all 84 schemas of <= 3 columns + sampled wider ones, all type boundaries, every single byte, rows at 399/400/401/437 bytes for INSERT and UPDATE, wrong SQL and Go types; text and direct submission.",
+         "SQL text cannot express negative ints, NULL, quotes/backslashes/newlines in strings: direct values only for those"),
+ "C16": ("exploration", "differential run: same workload at cache capacities just above the measured per-statement dirty set vs the default capacity; outcomes, SELECT results with row ids and final contents must be identical",
+         "Held on the workloads and capacities explored; the property's precondition (dirty set fits the cache) is guaranteed by construction.",
+         "the default-capacity run is the reference"),
  "C14": ("exploration", "before/after/restart/crash snapshots around failing statements (every cause, invalid row at every position), compared with the unchanged model; later valid statements checked",
          "Held on the failing statements explored: every cause the property names, k = 1..n for n-row INSERTs, k-th overflowing row for UPDATEs, on states with splits and tombstones.",
          "which error value is returned is not judged; ids may have gaps"),
